@@ -56,6 +56,9 @@ MAP = [
     ("a subpath constraint covered by length must not be turned into a safe sequence when it has zero-length edges", "C06", "with subpath_constraints_coverage_length == 1 constraints were used as fully required sequences although zero-length edges (all connecting edges in node mode) are not required: unsafe safe sequences / trusted edges, wrong optimum or infeasibility with solution_weights_superset (also C10)"),
     ("greedy shortcut of kFlowDecomp must not be used when solution_weights_superset", "C13", "kFlowDecomp(solution_weights_superset=...) reported itself solved straight after construction with greedy weights outside the superset although the restricted model is infeasible"),
     ("MinGenSet must tolerate float round-off", "C05", "MinFlowDecomp on decimal float flows raised ValueError (partition-constraint sums compared with ==) or 'Error adding constraint' (generating-set element -4.4e-16 used as a given weight) depending on the min-gen-set options"),
+    ("optimization_options=None / solver_options=None must be accepted", "C19", "explicit None for optimization_options / solver_options (the documented default of MinPathCover, MinPathCoverCycles, kFlowDecomp) raised AttributeError in kFlowDecomp, MinFlowDecomp, MinFlowDecompCycles, MinPathCover, MinPathCoverCycles"),
+    ("stDiGraph.get_width must count an ignored edge once", "C09", "stDiGraph.get_width decremented the multiplicity of a condensation edge once per LIST ENTRY of an ignored inter-SCC edge: a duplicated entry also removed a parallel non-ignored edge (width 1 reported, 2 walks needed)"),
+    ("safe-sequence computation must not recurse once per node of a path", "C09", "MinPathCoverCycles.solve() / kPathCoverCycles() raised RecursionError on a simple path with more nodes than the recursion limit (recursive find_path and dominator-tree traversal) (also C06)"),
     ("MinErrorFlow with few_flow_values_epsilon on node-weighted", "C16", "MinErrorFlow(flow_attr_origin='node', few_flow_values_epsilon>0) raised KeyError"),
 ]
 def main():
